@@ -22,3 +22,25 @@ def clones(ctx, obj):
         ctx.count(f"clones[{how}]")
         out.append((how, c))
     return out
+
+
+def judge_clones(ctx, obj, call, want, what: str, case, same=None) -> None:
+    """Every clone of `obj` must give `want` for `call(clone)`; a clone that
+    refuses to work is counted, an IndexError is passed on (bounds-checked
+    engines), anything else that differs is a violation."""
+    for how, c in clones(ctx, obj):
+        try:
+            got = call(c)
+        except IndexError:
+            raise
+        except Exception:  # noqa: BLE001
+            ctx.count(f"copied_object_unusable[{how}:{type(obj).__name__}]")
+            continue
+        ctx.count("calls_on_copied_objects")
+        ok = same(got, want) if same is not None else got == want
+        if not ok:
+            ctx.violation(
+                f"copied-{what}-differs",
+                f"{how} of a {type(obj).__name__}: {got!r}, the object it "
+                f"was copied from (and the oracle): {want!r}"[:400], case)
+            return
